@@ -77,6 +77,14 @@ def cases(rng, tier):
         else:
             y = rng.values(n)
         s = rng.choice([None, 0.0, 1e-4, 1e-2, 0.5, 1.0, 10.0, 100.0])
+        if shape == "noisy" and rng.random() < 0.15:
+            # an extra reading a few billionths of the sampling interval after a regular one (two sources, a retransmission):
+            # still two distinct samples with their own readings
+            j = rng.randrange(1, n - 1)
+            x = x[:j + 1] + [x[j] + Fraction(1, 2 ** 28)] + x[j + 1:]
+            y = y[:j + 1] + [y[j] + rng.choice([1, -1]) * rng.choice([Fraction(1, 2), 1, 2])] + y[j + 1:]
+            n += 1
+            shape = "twin"
         if rng.random() < 0.12:
             # a ripple on a high level (a counter far from zero): the default smoothing condition is about the SPREAD
             shape = "level"
